@@ -266,6 +266,11 @@ def run_property(pid, tier, seed):
     os.makedirs(EVID, exist_ok=True)
 
     cases = regression_cases(pid) + list(prop.cases(tier, seed))
+    flt = os.environ.get("VERIF_CASE_FILTER")
+    if flt:  # development aid only: the reach targets are then usually unmet and the run ends inconclusive
+        import re as _re
+        cases = [c for c in cases if _re.search(flt, c["id"])]
+        print("NOTE: VERIF_CASE_FILTER=%r keeps %d cases - not a complete run" % (flt, len(cases)))
     ids = [c["id"] for c in cases]
     assert len(set(ids)) == len(ids), "duplicate case ids"
     nshard = max(1, min(NPROC, len(cases)))
